@@ -26,6 +26,8 @@ pub enum ThreadsCfg {
     Any,
     /// Max(n) with n in 2..=max
     ParMax(usize),
+    /// Max(n): n in 2..=7 mostly, 8..=16 in a quarter of the cases (workers spawned after one and two lag periods)
+    ParWide,
     /// Max(n) n in 1..=max, plus a few larger than 16
     MaxN(usize),
     /// exactly Max(1) / Usize(1)
@@ -99,7 +101,7 @@ impl GenCfg {
             min_chain: 0,
             terms: vec![TermClass::Collect],
             threads: if mode == ModeCfg::Sched {
-                ThreadsCfg::ParMax(7)
+                ThreadsCfg::ParWide
             } else {
                 ThreadsCfg::Any
             },
@@ -162,6 +164,8 @@ fn source_strategy(class: SrcClass) -> BoxedStrategy<Source> {
             1 => (0u16..50).prop_map(|start| Source::RangeIter { start }),
             1 => Just(Source::ClonedSlice),
             1 => Just(Source::ParCloned),
+            1 => Just(Source::NestedCloned),
+            1 => (0u16..50).prop_map(|start| Source::NestedCopied { start }),
             3 => (coll_kind, any::<bool>()).prop_map(|(kind, by_ref)| Source::Coll { kind, by_ref }),
         ]
         .boxed(),
@@ -251,6 +255,11 @@ fn threads_strategy(cfg: ThreadsCfg) -> BoxedStrategy<Nt> {
         ]
         .boxed(),
         ThreadsCfg::ParMax(m) => (2usize..=m).prop_map(Nt::Max).boxed(),
+        ThreadsCfg::ParWide => prop_oneof![
+            3 => (2usize..=7).prop_map(Nt::Max),
+            1 => (8usize..=16).prop_map(Nt::Max),
+        ]
+        .boxed(),
         ThreadsCfg::MaxN(m) => prop_oneof![
             8 => (1usize..=m).prop_map(Nt::Max),
             1 => (17usize..=40).prop_map(Nt::Max),
@@ -454,12 +463,9 @@ fn fault_strategy(chain_len: usize) -> BoxedStrategy<Fault> {
         .boxed()
     } else {
         prop_oneof![
-            6 => (0..chain_len as u8).prop_map(Site::Stage),
-            1 => Just(Site::Pred),
-            1 => Just(Site::Red),
-            1 => Just(Site::Key),
-            1 => Just(Site::Cmp),
-            1 => Just(Site::ForEach),
+            5 => (0..chain_len as u8).prop_map(Site::Stage),
+            // a closure of the terminal (normalise maps it to the one the generated terminal actually calls)
+            3 => Just(Site::Pred),
         ]
         .boxed()
     };
@@ -540,6 +546,23 @@ pub fn normalise(mut c: Case, cfg: &GenCfg) -> Case {
             } else {
                 f.site = Site::Stage(s % c.chain.len() as u8);
             }
+        }
+        // a fault in a closure the terminal never calls cannot be raised: move it to one it does call
+        let terminal_site = match &c.term {
+            Term::Reduce { .. } | Term::Fold { .. } => Some(Site::Red),
+            Term::MinBy | Term::MaxBy => Some(Site::Cmp),
+            Term::MinByKey | Term::MaxByKey => Some(Site::Key),
+            Term::Find { .. } | Term::Any { .. } | Term::All { .. } | Term::FindIdx { .. } => Some(Site::Pred),
+            Term::ForEach => Some(Site::ForEach),
+            _ => None,
+        };
+        let is_terminal_site = !matches!(f.site, Site::Stage(_));
+        if is_terminal_site && Some(f.site) != terminal_site {
+            f.site = match terminal_site {
+                Some(s) => s,
+                None if !c.chain.is_empty() => Site::Stage(0),
+                None => f.site,
+            };
         }
     }
     c
